@@ -180,6 +180,8 @@ def removeAll : List String → Prog → Prog
 
 /-- `zoekt-merge-index merge names…` with compound name `dst` (computed by `index.Merge` from the repository names) -/
 def mergePlan (openErrIsSuccess : Bool) (d0 : Dir) (names : List String) (dst : String) : Prog :=
+  -- `mergeCmd`: "merge requires at least one shard path" (also for an empty list on stdin)
+  if names.isEmpty then .done .err else
   openAll openErrIsSuccess names <|
   readMetas d0 names <|
   match mergedRepos d0 names with
